@@ -434,6 +434,14 @@ def run(res, tier, seed):
     for t in c08lib.html_raw_trees():
         for c in range(0, len(cover), 120):
             execs.append(("htmlish", t, cover[c:c + 120]))
+    # URL attributes with characters the encoding lacks: every html vector of the cover, and one html vector under each encoding with URL
+    # escaping on / off / left alone
+    html_cover = [o for o in cover if o["method"] == "html"]
+    if html_cover:
+        base_ = html_cover[0]
+        uri_vecs = [cover[0]] + html_cover + [dict(base_, encoding=e_, setEncoding="", setEscapeURLs=u_) for e_ in ("ISO-8859-1", "US-ASCII", "UTF-8", "UTF-16") for u_ in ("no", "yes", "default")]
+        for t in c08lib.html_uri_trees():
+            execs.append(("htmlish", t, uri_vecs))
     exe = vlib.build_harness("c08")
     known = {k["key"]: k for k in vlib.known_findings(PROP)}
     tot = {"cases": 0, "out": 0, "rejects": 0, "tv_states": 0, "fixed": fixed_keys()}
